@@ -259,6 +259,23 @@ pub fn oracle(f: u32, a: &Args, out: &Args) -> Option<(&'static str, String)> {
     match f {
         // C13 metamorphic: args carry [ts], bytes, and optionally the same exchange without insertions
         301 | 302 => {
+            if f == 302 {
+                // C15: the buffered reader leaves the read position where it was unless it returns a frame
+                let mut prev = 0u64;
+                let mut i = 0;
+                while i < out.len() {
+                    let e = &out[i];
+                    if e[0] == 1 {
+                        prev = e[1];
+                        i += 2; // header, payload
+                    } else {
+                        if e.len() >= 2 && e[1] != prev {
+                            return Some(("C15", format!("read_frame_from_buffer moved the offset from {} to {} without returning a frame", prev, e[1])));
+                        }
+                        i += 1;
+                    }
+                }
+            }
             if a.len() >= 3 {
                 let base = super::exec(f, &vec![a[0].clone(), a[2].clone()]);
                 let (k1, l1) = known_frames(out);
@@ -399,12 +416,18 @@ pub fn generate(rng: &mut Rng, thorough: bool) -> Vec<Case> {
                     break; // nothing may precede a WT signal... GREASE before it is handled by the accept task, not here
                 }
                 let id = if rng.coin() { *rng.pick(&unk) } else { *rng.pick(&gr) };
-                let pl = match rng.below(4) {
-                    0 => vec![],
-                    1 => rng.bytes(3),
-                    2 => { let mut p = raw_frame(4, &[]); p.extend(raw_frame(0, &[1])); p }
+                let pl = match rng.below(if thorough { 40 } else { 60 }) {
+                    39 => rng.bytes(4097),
+                    38 => rng.bytes(257),
+                    x if x % 4 == 0 => vec![],
+                    x if x % 4 == 1 => rng.bytes(3),
+                    x if x % 4 == 2 => { let mut p = raw_frame(4, &[]); p.extend(raw_frame(0, &[1])); p }
                     _ => raw_wt(0x41, 0),
                 };
+                // GREASE frames are parsed like known frames: the 4096-byte parse limit applies to
+                // them (an oversize one is C12's OVERSIZE case), so only unknown types get more
+                let is_grease = id >= 0x21 && (id - 0x21) % 0x1f == 0;
+                let pl = if is_grease && pl.len() > 4096 { pl[..4096].to_vec() } else { pl };
                 with.extend(raw_frame(id, &pl));
             }
             with.extend(fr);
